@@ -482,6 +482,7 @@ class HashRule(ABC):
                         symbol=parts[i],
                         first_level=first_level,
                         ref_is_global_table=False,
+                        qualified_symbol=symbol_part + "." + parts[i],
                     )
                 )
                 return
@@ -550,10 +551,17 @@ class UndefinedSymbolHashRule(HashRule):
         symbol: str,
         first_level: bool,
         ref_is_global_table: bool,
+        qualified_symbol: str = None,
     ):
+        # The rule is identified by the whole dotted path that failed to resolve (`symbol` is
+        # only its last component, looked up on `ref`): a missing `mod.x` and a missing `x` -
+        # or `other.x` - under the same parent are different rules.
+        self.qualified_symbol = (
+            qualified_symbol if qualified_symbol is not None else symbol
+        )
         # noinspection PyUnresolvedReferences
         super().__init__(
-            key="UndefinedSymbol;{};{}".format(parent_symbol, symbol),
+            key="UndefinedSymbol;{};{}".format(parent_symbol, self.qualified_symbol),
             parent_symbol=parent_symbol,
             symbol=symbol,
             first_level=first_level,
@@ -568,6 +576,7 @@ class UndefinedSymbolHashRule(HashRule):
             self.symbol,
             self.first_level,
             self.ref_is_global_table,
+            self.qualified_symbol,
         )
 
     def collect_transitive_dependencies(
